@@ -83,7 +83,7 @@ def _alphabet(level):
     ops.append(["evalm", "when"])
     if level >= 1:
         ops.append(["evalm", "m"])
-    if level >= 2:
+    if level >= 3:
         ops.append(["evalm", "n"])
     # require shapes
     ops += [_req("mch_a", "star"), _req("mch_a", "as", "P")]
@@ -92,12 +92,13 @@ def _alphabet(level):
                 _req("mch_a", "names", [["n", "m"]]),
                 _req("mch_b", "bare"), _req("mch_b", "star"), _req("mch_b", "names", [["m", "m"]]), _req("mch_b", "as", "P")]
     if level >= 2:
-        ops += [_req("mch_a", "names", [["m", "m"]]), _req("mch_a", "names", [["n", "n"]]),
+        ops += [_req("mch_a", "names", [["m", "m"]]),
                 _req("mch_a", "names", [["when", "m"]]), _req("mch_a", "names", [["m", "n"]]),
-                _req("mch_a", "names", [["m", "m"]], True), _req("mch_a", "star", None, True),
-                _req("mch_b", "names", [["n", "n"]]), _req("mch_b", "names", [["n", "when"]]), _req("mch_b", "names", [["m", "n"]])]
+                _req("mch_a", "names", [["m", "m"]], True),
+                _req("mch_b", "names", [["n", "when"]]), _req("mch_b", "names", [["m", "n"]])]
     if level >= 3:
-        ops += [_req("mch_a", "names", [["n", "when"]]), _req("mch_a", "names", [["when", "n"]]),
+        ops += [_req("mch_a", "names", [["n", "n"]]), _req("mch_a", "star", None, True), _req("mch_b", "names", [["n", "n"]]),
+                _req("mch_a", "names", [["n", "when"]]), _req("mch_a", "names", [["when", "n"]]),
                 _req("mch_a", "names", [["m", "m"], ["n", "when"]]), _req("mch_a", "as", "P", True),
                 _req("mch_b", "names", [["n", "m"]]), _req("mch_b", "names", [["m", "when"]]), _req("mch_b", "names", [["_p", "m"]])]
     return ops
